@@ -5,7 +5,9 @@ open LemoModel LemoModel.Pool Driver
 
 structure St where
   pool : Pool := newPool
-  fixed : Bool := false
+  /-- `true` = `delTx` as repaired in /repo commit 85d2f65 (the live code); `mode asis` switches to the
+      model of the code before that commit -/
+  fixed : Bool := true
 
 /-- `nil` or `h:e[:h1:e1:h2:e2...]` -/
 def parseTx? (s : String) : Option (Option Tx) :=
@@ -60,6 +62,7 @@ def step (s : St) (w : List String) : St × String :=
   match w with
   | ["new"] => ({ s with pool := newPool }, "ok")
   | ["mode", "fixed"] => ({ s with fixed := true }, "ok")
+  | ["mode", "asis"] => ({ s with fixed := false }, "ok")
   | ["lock", _, b] => (s, if b == "true" then "ok" else "lock-discipline-violated")
   | ["escape", _, b] => (s, if b == "false" then "ok" else "field-escapes")
   | ["add", t] =>
